@@ -1145,8 +1145,8 @@ def trace_generated_text(ctx: Ctx, mod, fn, _depth=0, bindings=None):
         if id(e) in inlined:
             return inlined[id(e)]
         out = e
-        if isinstance(e, ast.Call) and dotted(e.func) in mod.functions() and not any(isinstance(a_, ast.Starred) for a_ in e.args) \
-                and all(k_.arg for k_ in e.keywords):
+        if isinstance(e, ast.Call) and dotted(e.func) in mod.functions() and dotted(e.func) != "parse_source" \
+                and not any(isinstance(a_, ast.Starred) for a_ in e.args) and all(k_.arg for k_ in e.keywords):
             callee = mod.functions()[dotted(e.func)]
             body = [st for st in callee.body if not (isinstance(st, ast.Expr) and isinstance(st.value, ast.Constant))]
             a = callee.args
